@@ -8,28 +8,37 @@ def build_impl(ctx, backend="dense", precond="ruiz", scalar="xrat"):
     d = ["BACKEND=%d" % BACKENDS[backend], "PRECOND=%d" % (0 if precond == "ruiz" else 1), "SCALAR=%d" % (0 if scalar == "xrat" else 1)]
     return dict(src="drv_solver.cpp", defines=tuple(d), name="drv_%s_%s_%s" % (backend, precond, scalar))
 
-def correspond(ctx, name, cases_text, precond="ruiz", timeout=600, ob_name=None, exes=None):
-    """run model and dense xrat implementation on the cases; record one correspondence obligation.
-    returns (ok, diffs, impl_obs, model_obs)"""
+def correspond(ctx, name, cases_text, precond="ruiz", backends=("dense",), timeout=600, ignore=("nonfinite",)):
+    """run the model and the xrat implementation(s) on the cases; one correspondence obligation per back end.
+    The single (dense) Gallina model is the reference for every back end: in exact arithmetic, with iterative
+    refinement off, all five back ends compute the same iterates (theorem backends_agree), so the sparse back ends are
+    compared against the same model outputs.  returns dict backend -> (ok, diffs, impl_obs), and model_obs"""
     cf = os.path.join(ctx.work, name + ".cases")
     open(cf, "w").write(cases_text)
-    if exes is None:
-        (impl, msg1), = vlib.build_many(ctx, [build_impl(ctx, "dense", precond)])
-        model, msg2 = vlib.build_model(ctx, "fast")
-    else:
-        impl, model = exes; msg1 = msg2 = "given"
-    obn = ob_name or "correspondence:%s" % name
-    if impl is None:
-        ctx.ob(obn, "correspondence", False, "harness build: " + msg1); return False, [], {}, {}
+    built = vlib.build_many(ctx, [build_impl(ctx, b, precond) for b in backends])
+    model, msg2 = vlib.build_model(ctx, "fast")
+    res = {}
+    mobs = {}
     if model is None:
-        ctx.ob(obn, "correspondence", False, "model build: " + msg2); return False, [], {}, {}
-    rc1, o1 = vlib.run_bin(impl, cf, timeout=timeout)
+        ctx.ob("correspondence:%s:model" % name, "correspondence", False, "model build: " + msg2)
+        return res, mobs
     rc2, o2 = vlib.run_bin(model, cf, args=(["--identity"] if precond != "ruiz" else []), timeout=timeout)
-    if rc1 != 0 or rc2 != 0:
-        ctx.ob(obn, "correspondence", False, "driver failed rc_impl=%d rc_model=%d: %s %s" % (rc1, rc2, o1[-400:], o2[-400:]))
-        return False, [], vlib.parse_obs(o1), vlib.parse_obs(o2)
-    a, b = vlib.parse_obs(o1), vlib.parse_obs(o2)
-    diffs = vlib.diff_obs(a, b)
-    ctx.ob(obn, "correspondence", not diffs,
-           "; ".join("%s %s impl=%s model=%s" % (c, k, str(x)[:80], str(y)[:80]) for c, k, x, y in diffs[:5]))
-    return not diffs, diffs, a, b
+    if rc2 != 0:
+        ctx.ob("correspondence:%s:model" % name, "correspondence", False, "model driver failed rc=%d: %s" % (rc2, o2[-600:]))
+        return res, mobs
+    mobs = vlib.parse_obs(o2)
+    for b, (impl, msg1) in zip(backends, built):
+        obn = "correspondence:%s:%s:%s" % (name, b, precond)
+        if impl is None:
+            ctx.ob(obn, "correspondence", False, "harness build: " + msg1); res[b] = (False, [], {}); continue
+        rc1, o1 = vlib.run_bin(impl, cf, timeout=timeout)
+        if rc1 != 0:
+            ctx.ob(obn, "correspondence", False, "driver failed rc=%d: %s" % (rc1, o1[-600:])); res[b] = (False, [], vlib.parse_obs(o1)); continue
+        a = vlib.parse_obs(o1)
+        diffs = vlib.diff_obs(a, mobs, ignore=ignore)
+        ctx.ob(obn, "correspondence", not diffs,
+               "; ".join("%s %s impl=%s model=%s" % (c, k, str(x)[:80], str(y)[:80]) for c, k, x, y in diffs[:5]))
+        res[b] = (not diffs, diffs, a)
+    return res, mobs
+
+ALL_BACKENDS = ("dense", "full", "eq", "ineq", "all")
